@@ -8005,18 +8005,27 @@ fn rewrite_segment_records(
 ) -> Result<(), WalStoreError> {
     fs::create_dir_all(root)?;
     fs::create_dir_all(segments_dir(root))?;
-    for path in segment_paths(root)? {
-        fs::remove_file(path)?;
-    }
+    // Build the replacement next to the segment and move it into place with one atomic rename:
+    // a process stop at any point leaves either the old segment files or the complete new one.
     let path = segment_path(root, WalSegmentId::from_raw(1));
-    File::create(&path)?.sync_all()?;
+    let temp = segments_dir(root).join(".segment-rewrite.tmp");
+    File::create(&temp)?.sync_all()?;
     for frame in frames {
-        append_segment_record(&path, DiskWalRecord::Frame(frame), false)?;
+        append_segment_record(&temp, DiskWalRecord::Frame(frame), false)?;
     }
     for commit in commits {
-        append_segment_record(&path, DiskWalRecord::Commit(commit), false)?;
+        append_segment_record(&temp, DiskWalRecord::Commit(commit), false)?;
     }
-    File::options().append(true).open(&path)?.sync_all()?;
+    File::options().append(true).open(&temp)?.sync_all()?;
+    let stale = segment_paths(root)?
+        .into_iter()
+        .filter(|existing| *existing != path)
+        .collect::<Vec<_>>();
+    fs::rename(&temp, &path)?;
+    sync_directory_store(&segments_dir(root))?;
+    for existing in stale {
+        fs::remove_file(existing)?;
+    }
     sync_directory_store(root)?;
     Ok(())
 }
